@@ -463,6 +463,15 @@ def run_chain(refs, query, sp, trim=True):
             fflags.append('selection border between two peaks of equal score of one correlation that argpartition cut (set unspecified)')
     if any(b[0] - a[0] < 1e-9 and a[1] != b[1] and a[0] != b[0] for a, b in zip(scores, scores[1:])):
         fflags.append('scores of two peaks of different correlations closer than 1e-9')
+    # two peaks of ONE correlation whose double heights differ by rounding noise only (equal as exact rationals, e.g. 64/115 twice): their
+    # order after selectPeaks - and, at the selection border, which of them is kept - is decided by FFT noise; the exact tier can only compare
+    # the selected peaks as a multiset (thorough pass, data set 918620622: two equal peaks of a palindromic region on one strand)
+    for k, (a, b) in enumerate(zip(scores, scores[1:])):
+        if b[0] - a[0] < 1e-9 and a[1] == b[1] and a[0] != b[0]:
+            if 0 < pc < len(scores) and k == len(scores) - pc - 1:
+                xflags.append('selection border between two peaks of one correlation whose heights differ by rounding noise only')
+            else:
+                xflags.append(MULTI)
     out = []
     for k, spk in enumerate(selected):
         pc, sc = wc._WorkflowCoordinator__getSecondaryCorrelation(spk, k)
